@@ -130,6 +130,11 @@ impl Out {
     pub fn oracle_fail(&mut self, what: &str) {
         let msg = format!("case {}: {}", self.case_no, what);
         if self.oracle_failures.len() < 50 {
+            // also on disk at once: a later crash of the process must not lose the finding
+            use std::io::Write as _;
+            if let Ok(mut f) = std::fs::OpenOptions::new().create(true).append(true).open(self.dir.join("oracle.txt")) {
+                let _ = writeln!(f, "{msg}");
+            }
             self.oracle_failures.push(msg);
         }
     }
